@@ -127,6 +127,7 @@ Definition xinfo_eqb (a b : xinfo) : bool :=
 Definition prod_shape (s : list nat) : nat := fold_right Nat.mul 1 s.
 
 Definition is_xr (a : arr) : bool := match a_xr a with Some _ => true | None => false end.
+Definition is_none_arr (o : option arr) : bool := match o with None => true | Some _ => false end.
 
 Definition as_numpy (a : arr) : arr :=          (* np.asarray(value) *)
   {| a_xr := None; a_shape := a_shape a; a_dt := a_dt a; a_data := a_data a |}.
@@ -205,6 +206,19 @@ Inductive eq_kind :=
   | EqLeftOnly            (* if self._array is not None: np.array_equal(self.array, other.array)   else True *)
   | EqBothNone.           (* one side None -> (both None);  otherwise np.array_equal(self._array, other._array) *)
 
+(* what `<class>.empty()` leaves in the container *)
+Inductive empty_kind :=
+  | EmptyNone             (* self._array = None *)
+  | EmptyZeros.           (* self._array = np.zeros(shape=self._shape, dtype=float) *)
+
+(* what `update(None)` does *)
+Inductive upd_none_kind :=
+  | UpdCallsEmpty         (* self.empty() *)
+  | UpdNone.              (* self._array = None *)
+
+(* Detector.empty(reset): `self.<bucket>.empty()` unconditionally / under `if reset:` / not at all *)
+Inductive dempty_kind := DAlways | DIfReset | DNever.
+
 Record tables := {
   type_list : ckind -> list dtype;
   (* numpy: does `dst += src` pass the 'same_kind' output-casting rule?  iadd_ok dst src *)
@@ -220,7 +234,18 @@ Record tables := {
   ph_iadd : iadd_kind;                 (* Photon.__iadd__ *)
   ph_add : iadd_kind;                  (* Photon.__add__ *)
   base_eq : eq_kind;                   (* ArrayBase.__eq__ *)
-  ph_eq_geom : bool                    (* Photon.__eq__ compares (_num_rows, _num_cols) *)
+  ph_eq_geom : bool;                   (* Photon.__eq__ compares (_num_rows, _num_cols) *)
+  (* getters: `if <test>: raise E` guards before `return self._array` *)
+  rd_base : guard;                     (* ArrayBase.array: not initialised *)
+  rd_ph2_none : guard; rd_ph2_xr : guard;     (* Photon.array: None; a DataArray is stored *)
+  rd_ph3_none : guard; rd_ph3_np : guard;     (* Photon.array_3d: None; an ndarray is stored *)
+  aa_base : guard;                     (* ArrayBase.__array__: `not isinstance(self._array, np.ndarray)` *)
+  aa_ph_none : guard;                  (* Photon.__array__: None (then np.asarray(self.array)) *)
+  (* resets *)
+  empty_of : ckind -> empty_kind;      (* <class>.empty() *)
+  upd_none : ckind -> upd_none_kind;   (* <class>.update(None)   (ArrayBase classes) *)
+  d_empty : ckind -> dempty_kind;      (* Detector.empty(reset) *)
+  mkid_phase_zero : bool               (* MKID.empty: `if reset and ... self._phase._array is not None: self.phase.array *= 0` *)
 }.
 
 (* the first guard, in source order, that is present and whose test is true *)
@@ -238,6 +263,7 @@ Inductive outcome :=
   | Raise (e : exc)
   | RetArr (a : arr)           (* value of a read *)
   | RetBool (b : bool)         (* value of a comparison *)
+  | RetNone                    (* a read of an empty container returned (None) instead of raising *)
   | Unmodelled.                (* operand combination outside the modelled domain (see `step`) *)
 
 Inductive op :=
@@ -410,28 +436,43 @@ Definition photon_iadd (k : iadd_kind) (c : container) (a : arr) : container * o
       end
   end.
 
-(* `.array` *)
+Definition content_none (c : container) : bool := is_none_arr (c_content c).
+Definition content_xr (c : container) : bool := match c_content c with Some a => is_xr a | None => false end.
+Definition content_np (c : container) : bool := match c_content c with Some a => negb (is_xr a) | None => false end.
+
+Definition ret_content (c : container) : outcome :=
+  match c_content c with Some a => RetArr a | None => RetNone end.
+
+(* `.array` : the guards of the getter in source order, then `return self._array` *)
 Definition read2d (c : container) : outcome :=
-  match c_content c with
-  | None => Raise ValueError
-  | Some a => if is_photon (c_kind c) && is_xr a then Raise TypeError else RetArr a
+  match (if is_photon (c_kind c)
+         then first_fail [ (rd_ph2_none tb, content_none c); (rd_ph2_xr tb, content_xr c) ]
+         else first_fail [ (rd_base tb, content_none c) ]) with
+  | Some e => Raise e
+  | None => ret_content c
   end.
 
 (* photon `.array_3d` *)
 Definition read3d (c : container) : outcome :=
-  match c_content c with
-  | None => Raise ValueError
-  | Some a => if is_xr a then RetArr a else Raise TypeError
+  match first_fail [ (rd_ph3_none tb, content_none c); (rd_ph3_np tb, content_np c) ] with
+  | Some e => Raise e
+  | None => ret_content c
   end.
 
 (* `np.asarray(c)`:
      ArrayBase.__array__ : `if not isinstance(self._array, np.ndarray): raise TypeError`, else the stored array;
      Photon.__array__    : `if self._array is None: raise ValueError`, else np.asarray(self.array) *)
 Definition asarray_res (c : container) : outcome :=
-  match c_content c with
-  | None => if is_photon (c_kind c) then Raise ValueError else Raise TypeError
-  | Some a => if is_xr a then Raise TypeError else RetArr a
-  end.
+  if is_photon (c_kind c) then
+    match first_fail [ (aa_ph_none tb, content_none c) ] with
+    | Some e => Raise e
+    | None => read2d c
+    end
+  else
+    match first_fail [ (aa_base tb, negb (content_np c)) ] with
+    | Some e => Raise e
+    | None => ret_content c
+    end.
 
 Definition zeros_f64 (r c : nat) : arr :=
   {| a_xr := None; a_shape := [r; c]; a_dt := F64; a_data := repeat (Fin 0) (r * c) |}.
@@ -521,6 +562,13 @@ Definition accepted (c : container) : bool :=
       else is_none (validate_base c a)
   end.
 
+(* <class>.empty() *)
+Definition do_empty (c : container) : container :=
+  match empty_of tb (c_kind c) with
+  | EmptyNone => with_content c None
+  | EmptyZeros => with_content c (Some (zeros_f64 (c_rows c) (c_cols c)))
+  end.
+
 Definition step (c : container) (o : op) : container * outcome :=
   match o with
   | OSet a => if is_photon (c_kind c) then photon_set2d c a else base_set c a
@@ -529,15 +577,14 @@ Definition step (c : container) (o : op) : container * outcome :=
       if is_photon (c_kind c) then (c, Unmodelled)           (* Photon has no update() *)
       else match oa with
            | Some a => base_set c (as_numpy a)
-           | None => (with_content c None, Done)
+           | None => match upd_none tb (c_kind c) with
+                     | UpdCallsEmpty => (do_empty c, Done)
+                     | UpdNone => (with_content c None, Done)
+                     end
            end
   | OIAdd a => if is_photon (c_kind c) then photon_iadd (ph_iadd tb) c a else base_iadd c a
   | OAdd a => if is_photon (c_kind c) then photon_iadd (ph_add tb) c a else base_iadd c a
-  | OEmpty =>
-      match c_kind c with
-      | Pixel => (with_content c (Some (zeros_f64 (c_rows c) (c_cols c))), Done)
-      | _ => (with_content c None, Done)
-      end
+  | OEmpty => (do_empty c, Done)
   | ORead => (c, read2d c)
   | ORead3D => if is_photon (c_kind c) then (c, read3d c) else (c, Unmodelled)
   | OEq o' => (c, eq_res c o')
@@ -545,12 +592,10 @@ Definition step (c : container) (o : op) : container * outcome :=
   | ODAssign o' => det_assign c o'
   | ODEmpty reset =>
       match c_kind c with
-      | Photon | Signal | Image => (with_content c None, Done)
-      | Pixel => if reset then (with_content c (Some (zeros_f64 (c_rows c) (c_cols c))), Done) else (c, Done)
-      | Phase =>
+      | Phase =>                                         (* MKID.empty, after Detector.empty *)
           match c_content c with
           | Some cur =>
-              if reset then
+              if reset && mkid_phase_zero tb then
                 let cur' := with_data cur (map cell_mul0 (a_data cur)) in
                 match validate_base c cur' with
                 | Some e => (with_content c (Some cur'), Raise e)
@@ -558,6 +603,12 @@ Definition step (c : container) (o : op) : container * outcome :=
                 end
               else (c, Done)
           | None => (c, Done)
+          end
+      | k =>
+          match d_empty tb k with
+          | DAlways => (do_empty c, Done)
+          | DIfReset => if reset then (do_empty c, Done) else (c, Done)
+          | DNever => (c, Done)
           end
       end
   | OAsArray => (c, asarray_res c)
@@ -669,9 +720,23 @@ Definition iadd_through_setters (tb : tables) : bool :=
 Definition eq_shape_ok (tb : tables) : bool :=
   match base_eq tb with EqBothNone => ph_eq_geom tb | EqLeftOnly => false end.
 
+(* every getter refuses to return from an empty container *)
+Definition reads_guarded (tb : tables) : bool :=
+  guard_present (rd_base tb) && guard_present (rd_ph2_none tb) && guard_present (rd_ph3_none tb)
+  && guard_present (aa_base tb) && guard_present (aa_ph_none tb).
+
+(* resets leave nothing behind: empty() stores None (zeros are allowed for Pixel only: float64 is not an image
+   type); Detector.empty empties photon, signal and image unconditionally and pixel at least under `reset`;
+   MKID.empty zeroes an initialised phase array under `reset` *)
+Definition resets_ok (tb : tables) : bool :=
+  forallb (fun k => match empty_of tb k with EmptyNone => true | EmptyZeros => false end) [Photon; Signal; Image; Phase]
+  && forallb (fun k => match d_empty tb k with DAlways => true | _ => false end) [Photon; Signal; Image]
+  && match d_empty tb Pixel with DNever => false | _ => true end
+  && mkid_phase_zero tb.
+
 Definition tables_ok (tb : tables) : bool :=
   type_lists_ok tb && guards_ok tb && pixel_zeros_ok tb && no_raw_setter tb && iadd_through_setters tb
-  && eq_shape_ok tb.
+  && eq_shape_ok tb && reads_guarded tb && resets_ok tb.
 
 (* ------------------------------------------------------------------------------------------ case files
    One case = a bucket of a real detector, an operation list and what the implementation showed
@@ -692,6 +757,7 @@ Definition outcome_eqb (a b : outcome) : bool :=
   | Raise x, Raise y => exc_eqb x y
   | RetArr x, RetArr y => arr_eqb x y
   | RetBool x, RetBool y => Bool.eqb x y
+  | RetNone, RetNone => true
   | Unmodelled, Unmodelled => true
   | _, _ => false
   end.
@@ -758,7 +824,7 @@ Definition is_raise (o : outcome) : bool := match o with Raise _ => true | _ => 
 
 Definition reset_ok (k : ckind) (o : op) (before after : option arr) : bool :=
   match o, k with
-  | OEmpty, Pixel | ODEmpty true, Pixel =>
+  | OEmpty, Pixel | ODEmpty true, Pixel | OUpdate None, Pixel =>      (* update(None) is documented as empty() *)
       match after with
       | Some a => forallb (cell_eqb (Fin 0)) (a_data a)
       | None => true
